@@ -42,7 +42,10 @@ package proxy
 //                                    a selection panicked while a candidate list under
 //                                    weightedRandom was non-empty with all weights zero
 //                                    (accepted by Validate / reported by discovery)
-//   C04.panic                        any other panic escaping sp.handle
+//   C04.panic                        any other panic escaping sp.handle, NewServerPool or close
+//   C04.discovery-report-lost        watcher mode: a registry notification was never turned
+//                                    into a report although a pool was watching and every
+//                                    goroutine has been idle since (see third round below)
 //   C04.other                        transport called more than once, unknown request...
 //
 // Leniency decisions (statement silent or two readings):
@@ -88,14 +91,59 @@ package proxy
 //   * after the tasks, at quiescence, two more requests are issued: only the
 //     generation LAST reported/installed is a candidate for them.
 //
-// Determinism note: useService ranges over the instances map, so the order of
-// a discovered list (and with it *which* member a given counter value / hash /
-// random draw maps to) is not reproducible. No recorded event and no rule
-// depends on that order on a correct implementation.
+// Extensions (third round, service-discovery flows):
+//   * "morph" report sequences: a report keeps the instances (ids, URLs) of the
+//     previous one and changes only weights (to 0, from 0, other value) and tags
+//     (instances losing / gaining a serverTag of the pool); identical reports too.
+//     No new rule is needed: once a report is in force every selection is judged
+//     against the list and the weights THAT report defines.
+//   * watcher mode has pool objects instead of one pool: 1-2 slots (main pool and
+//     a second pool - candidate / other proxy - with the same or other serverTags)
+//     watch the same service of the same real ServiceRegistry, and a "life" task
+//     hot-reloads slots: it creates the next generation of the slot's pool
+//     (NewServerPool -> watchServers: synchronous listing, new service watcher
+//     with its initial event), publishes it, then closes the old generation (the
+//     order Pipeline.Inherit uses). A request is served by the generation that
+//     is published when it starts and is judged against THAT pool object's model
+//     (so requests may outlive their generation). Every pool object has its own
+//     reference model; a report (one listing made by the registry for one
+//     notification) creates a generation in the model of every pool that is
+//     watching: from the moment its own watcher was created (at the latest when
+//     NewServerPool returned) until close() is called. Reports made while close()
+//     runs are optional for that pool (may or may not be applied).
+//   * who asks the fake driver for a listing is read from the call stack
+//     (watchServers = synchronous first listing, NewServiceWatcher = initial
+//     event, _handleRegistryEvent = report for a notification); only the last
+//     kind advances the fake registry's state.
+//   * C04.discovery-report-lost: a notification handed to the registry at an
+//     earlier virtual instant has still not been turned into a report although
+//     virtual time passed without a scheduler stall (every goroutine idle) and a
+//     pool was watching all the time. (The reports are what the statement's
+//     "last reported by service discovery" refers to; a registry that stops
+//     reporting to a live pool makes the pool serve a stale list for ever.)
+//   * notifications are full Replace events or incremental Apply/Delete events
+//     (the changed / removed instances relative to the state notified before).
+//   * fault registry_list_error.{sync,initial,dispatch}: scripted listings of the
+//     driver fail. Reference: a failed synchronous listing is "no report yet" =
+//     the static list; a failed initial listing is no event; a failed listing for
+//     a notification is no report to anybody (the pools keep the last reported
+//     list).
+//   * observation only (probe c04.hash_key_moved_after_identical_report): a
+//     report that repeats the previous list rebuilds the balancer; the order of a
+//     discovered list is the iteration order of the registry's instance map, so
+//     ipHash/headerHash may move a key although the list (as a set) did not
+//     change. The statement's "while the list is unchanged" can be read per
+//     report or per content; both outcomes are accepted.
+//
+// Determinism notes: useService ranges over the instances map and the registry
+// over its watcher map (keyed by random UUIDs); both files are under
+// map_ranges, and the harness gives google/uuid a reproducible source
+// (uuid.SetRand) for the duration of a run, so that watcher ids - and with them
+// the order in which the watchers of a service are served - replay. The pool
+// goroutine's two-case select is determinised (check.json selects): with
+// reloads done and an event can be ready together.
 
 import (
-	"encoding/json"
-	"os"
 	"fmt"
 	"net/http"
 	"runtime"
@@ -136,6 +184,7 @@ type c04Inst struct {
 type c04Update struct {
 	GapUs int64     `json:"gap_us"`
 	Burst bool      `json:"burst"` // watcher mode: sent right behind the previous event of this task (no gate, no gap)
+	Incr  bool      `json:"incr"`  // watcher mode: notified as an incremental event (Apply / Delete of the changed instances) instead of a full Replace
 	Insts []c04Inst `json:"insts"`
 }
 
@@ -184,11 +233,12 @@ type c04Scenario struct {
 	Selectors   []c04Selector `json:"selectors"`
 	Updaters    []c04Updater  `json:"updaters"`
 	Retry       *c04Retry     `json:"retry,omitempty"`
-	Watcher     bool          `json:"watcher"`    // discovery through the real ServiceRegistry + the pool's own watchServers goroutine
-	InitInsts   []c04Inst     `json:"init_insts"` // watcher mode: what the registry holds when the pool is created
+	Watcher     bool          `json:"watcher"`     // discovery through the real ServiceRegistry + the pool's own watchServers goroutine
+	InitInsts   []c04Inst     `json:"init_insts"`  // watcher mode: what the registry holds when the pool is created
 	SecondPool  bool          `json:"second_pool"` // watcher mode: a second pool (candidate / other proxy) watches the same service
 	Pool2Tags   []string      `json:"pool2_tags"`  // its serverTags (empty: same as the main pool's)
 	Reloads     []c04Reload   `json:"reloads"`     // watcher mode: hot reloads (new pool generation created, then the old one closed)
+	ListFail    []int         `json:"list_fail"`   // watcher mode, fault: ordinals of the registry driver's listings that answer with an error
 }
 
 func c04Gen(rng *sim.Rand, tier string) interface{} {
@@ -402,6 +452,18 @@ func c04Gen(rng *sim.Rand, tier string) interface{} {
 			sc.Updaters[t].Updates = append(sc.Updaters[t].Updates, u)
 		}
 		if sc.Watcher {
+			if rng.Bool(0.3) {
+				for t := range sc.Updaters {
+					for k := range sc.Updaters[t].Updates {
+						sc.Updaters[t].Updates[k].Incr = rng.Bool(0.6)
+					}
+				}
+			}
+			if rng.Bool(0.12) {
+				for i, n := 0, rng.Range(1, 2); i < n; i++ {
+					sc.ListFail = append(sc.ListFail, rng.Intn(9))
+				}
+			}
 			// a second pool on the same service, hot reloads of either pool
 			if rng.Bool(0.35) {
 				sc.SecondPool = true
@@ -562,18 +624,19 @@ type c04Generation struct {
 	start, end int           // harness stamps: reported / known to be in force (installed)
 	endT       time.Duration // virtual time of end
 	installed  bool
-	fifo       int // watcher mode: position of the report in the pool's event queue (applied in this order by one goroutine); -1 otherwise
+	fifo       int           // watcher mode: position of the report in the pool's event queue (applied in this order by one goroutine); -1 otherwise
 	bornT      time.Duration // watcher mode: virtual time at which the report was made
 	optional   bool          // reported while the pool was being closed: may or may not have been applied
 	// probes only: relation to the report before it / to the pool's history
 	weightOnly, tagOnly, afterReload bool
-	src        string
-	weight     map[string]int // url -> weight
-	n, total   int
-	sure       map[string]int // selections that can only belong to this generation
-	maybe      map[string]int // selections that may belong to it
-	sticky     map[string]string
-	k          int
+	sameAs                           *c04Generation // the report before it defined the identical list (same URLs, same weights)
+	src                              string
+	weight                           map[string]int // url -> weight
+	n, total                         int
+	sure                             map[string]int // selections that can only belong to this generation
+	maybe                            map[string]int // selections that may belong to it
+	sticky                           map[string]string
+	k                                int
 }
 
 func (g *c04Generation) describe() string {
@@ -727,6 +790,9 @@ type c04Registry struct {
 	pending [][]c04Inst
 	service string
 	onList  func(kind string, insts []c04Inst)
+	nList   int
+	fail    map[int]bool
+	onFail  func(kind string)
 }
 
 // c04ListKind tells on whose behalf the registry driver is asked for the
@@ -770,6 +836,12 @@ func (f *c04Registry) ListServiceInstances(serviceName string) (map[string]*serv
 	if kind == "dispatch" && len(f.pending) > 0 {
 		f.cur = f.pending[0]
 		f.pending = f.pending[1:]
+	}
+	n := f.nList
+	f.nList++
+	if kind != "" && f.fail[n] && f.onFail != nil {
+		f.onFail(kind)
+		return nil, fmt.Errorf("c04: scripted registry failure")
 	}
 	if f.onList != nil {
 		f.onList(kind, f.cur)
@@ -1108,6 +1180,7 @@ func c04Exec(r *sim.Run, sci interface{}) {
 			}
 		}
 		if same && !wdiff {
+			g.sameAs = last
 			r.Probe("c04.report_identical_list")
 		}
 	}
@@ -1232,6 +1305,38 @@ func c04Exec(r *sim.Run, sci interface{}) {
 				}
 			}
 		}
+		fake.fail = map[int]bool{}
+		for _, n := range sc.ListFail {
+			fake.fail[n] = true
+		}
+		fake.onFail = func(kind string) {
+			if cleaned {
+				return
+			}
+			r.Fault("registry_list_error." + kind)
+			switch kind {
+			case "sync":
+				// no report: the pool starts on its static list
+				if p := creating; p != nil {
+					g := p.model.newGen("fallback", static, 0)
+					g.installed, g.bornT = true, r.Now()
+					note("%s:sync-failed:gen%d(static,n=%d)", p.name, g.id, g.n)
+					r.Eventf("%s sync listing failed", p.name)
+				}
+			case "initial":
+				// the watcher is registered but gets no first event
+				if p := creating; p != nil {
+					p.state = c04Live
+					note("%s:initial-failed", p.name)
+					r.Eventf("%s initial event listing failed", p.name)
+				}
+			case "dispatch":
+				// the notification is consumed without a report to anybody
+				dispatched++
+				note("dispatch%d-failed@%d", dispatched, stamp())
+				r.Eventf("dispatch %d failed", dispatched)
+			}
+		}
 		if err := sreg.RegisterRegistry(fake); err != nil {
 			r.Violate("C04.other", "harness: RegisterRegistry: %v", err)
 			return
@@ -1309,10 +1414,13 @@ func c04Exec(r *sim.Run, sci interface{}) {
 				r.Probe("c04.single_server_list")
 			}
 			p.state = c04Live
-		} else if len(p.model.gens) == 0 || p.state != c04Live {
-			r.Violate("C04.other", "watchServers of pool %s did not list the service instances / did not create a watcher when the pool was created", p.name)
+		} else if len(p.model.gens) == 0 {
+			r.Violate("C04.other", "watchServers of pool %s did not list the service instances when the pool was created", p.name)
 			return nil
 		}
+		// from here on the pool has to follow every report for its service,
+		// whether or not the harness saw it register a watcher
+		p.state = c04Live
 		return p
 	}
 	for s := 0; s < nSlots; s++ {
@@ -1460,6 +1568,18 @@ func c04Exec(r *sim.Run, sci interface{}) {
 				}
 			} else {
 				g.sticky[st.key] = url
+				// observation only (two readings of "while the list is unchanged"): a
+				// report that repeats the previous list rebuilds the balancer, and the
+				// order of a discovered list is the registry map's iteration order
+				if g.sameAs != nil && g.n >= 2 {
+					if prev, ok := g.sameAs.sticky[st.key]; ok {
+						if prev != url {
+							r.Probe("c04.hash_key_moved_after_identical_report")
+						} else {
+							r.Probe("c04.hash_key_kept_after_identical_report")
+						}
+					}
+				}
 			}
 		}
 	}
@@ -1657,6 +1777,7 @@ func c04Exec(r *sim.Run, sci interface{}) {
 		})
 	}
 	updOpen := 0
+	lastNotified := c04Usable(sc.InitInsts)
 	for ui := range updaters {
 		ui := ui
 		ups := updaters[ui].Updates
@@ -1687,8 +1808,25 @@ func c04Exec(r *sim.Run, sci interface{}) {
 					if creating != nil {
 						r.Probe("c04.notify_while_pool_being_created")
 					}
+					ev := &serviceregistry.RegistryEvent{SourceRegistryName: "c04reg", UseReplace: true, Replace: c04InstMap(used, sc.ServiceName)}
+					if u.Incr {
+						// the instances that are new or changed / that are gone, relative to the state notified last
+						apply, del := c04Diff(lastNotified, used)
+						if len(apply)+len(del) > 0 {
+							ev = &serviceregistry.RegistryEvent{SourceRegistryName: "c04reg", Apply: c04InstMap(apply, sc.ServiceName), Delete: c04InstMap(del, sc.ServiceName)}
+							if len(apply) == 0 {
+								ev.Apply = nil
+								r.Probe("c04.incremental_event_delete_only")
+							}
+							if len(del) == 0 {
+								ev.Delete = nil
+							}
+							r.Probe("c04.incremental_event")
+						}
+					}
+					lastNotified = used
 					select {
-					case fake.notify <- &serviceregistry.RegistryEvent{SourceRegistryName: "c04reg", UseReplace: true, Replace: c04InstMap(used, sc.ServiceName)}:
+					case fake.notify <- ev:
 					default:
 						r.Violate("C04.other", "harness: notification channel full")
 					}
@@ -1925,6 +2063,28 @@ func c04Exec(r *sim.Run, sci interface{}) {
 	r.SetSig(sig.String())
 }
 
+// c04Diff splits a registry change into the instances to apply (new or
+// changed) and the instances to delete.
+func c04Diff(prev, next []c04Inst) (apply, del []c04Inst) {
+	was := map[string]c04Inst{}
+	for _, in := range prev {
+		was[in.ID] = in
+	}
+	is := map[string]bool{}
+	for _, in := range next {
+		is[in.ID] = true
+		if w, ok := was[in.ID]; !ok || fmt.Sprint(w) != fmt.Sprint(in) {
+			apply = append(apply, in)
+		}
+	}
+	for _, in := range prev {
+		if !is[in.ID] {
+			del = append(del, in)
+		}
+	}
+	return apply, del
+}
+
 // c04Watching counts the pools that are registered watchers of the service.
 func c04Watching(pools []*c04Pool) int {
 	n := 0
@@ -1962,11 +2122,11 @@ func TestVerifC04(t *testing.T) {
 		MaxSteps: 30000,
 		Rule: "scenario = drawn policy (5 policies + omitted), static list of 0-8 servers (weights all zero / equal / distinct), 0-4 discovery updates (0-8 instances, tagged or not, weights incl. zero, addresses fresh or shared between versions) issued by 1-2 updater tasks, " +
 			"and 1-6 selector tasks issuing 4-200 requests (client IP by RemoteAddr/X-Real-Ip/X-Forwarded-For, hash header, mirror flag, hold inside the transport); " +
-			"25% of the scenarios put a Retry policy (2-4 attempts, 1-20 ms wait) on the pool and script 1..max failing transport calls per request with list replacements landing between attempts; 35% of the discovery scenarios feed the instance maps through the real ServiceRegistry and the pool's own watchServers goroutine in bursts of back-to-back notifications; two requests are issued after quiescence; " +
+			"25% of the scenarios put a Retry policy (2-4 attempts, 1-20 ms wait) on the pool and script 1..max failing transport calls per request with list replacements landing between attempts; 45% of the discovery scenarios are report sequences that keep the instance URLs and change only weights (to/from 0) and tags (instances losing/gaining a serverTag); 42% of the discovery scenarios feed the instance maps through the real ServiceRegistry (Replace or incremental Apply/Delete notifications, bursts of back-to-back notifications, scripted listing errors) and the pools' own watchServers goroutines, of these 35% with a second pool watching the same service and 55% with 1-4 hot reloads (next pool generation created and published, then the old one closed) interleaved with the reports; two requests per slot are issued after quiescence; " +
 			"non-trivial = a policy rule was really exercised (a retry attempt forwarded after a list replacement, roundRobin fairness on a list of >=2 servers with k>=n, a repeated hash key on >=2 servers, a weighted choice with a zero-weight member, a no-server failure on an empty list, or two generations that both served requests); " +
 			"distinct = distinct (policy, generation shapes, start/end/outcome event order) signatures",
-		Real: []string{"pkg/filters/proxy ServerPool (NewServerPool, createLoadBalancer, useService, handle, doHandle, handleMirror, buildResponse)", "pkg/filters/proxy five LoadBalancer implementations + NewLoadBalancer", "ServerPoolSpec.Validate", "ServerPool.watchServers + its goroutine, InjectResiliencePolicy", "pkg/resilience RetryPolicy (NewPolicy, Wrap)", "pkg/object/serviceregistry ServiceRegistry (RegisterRegistry, watchRegistry, NewServiceWatcher, event dispatch)", "pkg/context, pkg/protocols/httpprot request/response objects"},
-		Stub: []string{"transport: fnSendRequest replaced by a recorder that answers 200 with an empty body", "direct mode: updater tasks call sp.useService themselves; watcher mode: a fake registry driver (c04Registry) behind the real ServiceRegistry, supervisor mock holding it", "retry.go time.After -> simtime (timeshim)", "sync/atomic -> simatomic, math/rand -> simrand (same semantics + gates / taped draws)"},
+		Real: []string{"pkg/filters/proxy ServerPool (NewServerPool, createLoadBalancer, useService, handle, doHandle, handleMirror, buildResponse)", "pkg/filters/proxy five LoadBalancer implementations + NewLoadBalancer", "ServerPoolSpec.Validate", "ServerPool.watchServers + its goroutine, ServerPool.close, InjectResiliencePolicy (several pool objects per run: two slots, successive generations)", "pkg/resilience RetryPolicy (NewPolicy, Wrap)", "pkg/object/serviceregistry ServiceRegistry (RegisterRegistry, watchRegistry, NewServiceWatcher, serviceWatcher.Stop, dispatch of Replace/Apply/Delete events to all watchers of the service, ListServiceInstances)", "pkg/context, pkg/protocols/httpprot request/response objects"},
+		Stub: []string{"transport: fnSendRequest replaced by a recorder that answers 200 with an empty body", "direct mode: updater tasks call sp.useService themselves; watcher mode: a fake registry driver (c04Registry) behind the real ServiceRegistry, supervisor mock holding it", "retry.go time.After -> simtime (timeshim)", "google/uuid randomness -> per-run counter (uuid.SetRand) so that watcher ids replay", "hot reload = NewServerPool + publish + old.close() done by the harness (no Pipeline / Proxy object)", "sync/atomic -> simatomic, math/rand -> simrand (same semantics + gates / taped draws)"},
 		Assumptions: []string{
 			"a request overlapping a list replacement may be served from the old or the new list; overlapping useService calls may take effect in either order",
 			"fairness is evaluated per balancer generation at instants with no selection between handle() entry and the transport call, requests that may belong to two generations count as optional for both",
@@ -1975,14 +2135,10 @@ func TestVerifC04(t *testing.T) {
 			"a retry attempt begins after the previous transport call returned and not before half the configured waitDuration later; on persistent failure the reported failure is the last of maxAttempts attempts",
 			"watcher mode: reports take effect in report order; a report is known to be in force only after virtual time passed without scheduler stalls (all goroutines idle); a fake registry shows its k-th state to the k-th listing made for a notification",
 			"the order of a discovered list depends on Go map iteration in useService; no event or rule depends on it",
+			"a pool object has to follow every report made from the moment its own watcher exists (at the latest from the return of NewServerPool) until close() is called; reports made while close() runs may or may not be applied; a request is judged against the pool generation that was published when it started",
+			"a report is in force in every watching pool once virtual time has passed after it without a scheduler stall; a notification sent at an earlier virtual instant must have become a report by then (C04.discovery-report-lost otherwise); at most 8 notifications per run (a watcher queue holds 10 events)",
+			"a failed listing is no report: synchronous first listing failed = static list, listing for a notification failed = every pool keeps the list reported last",
+			"ipHash/headerHash stickiness is asserted within one report's balancer generation only; a key that moves after a report repeating the identical list is recorded as a probe, not a violation",
 		},
 	})
-}
-
-func TestVerifC04Dump(t *testing.T) {
-	var seed uint64
-	fmt.Sscan(os.Getenv("C04_DUMP_SEED"), &seed)
-	sc := c04Gen(sim.NewRand(sim.Mix(seed, 1)), "quick")
-	b, _ := json.Marshal(sc)
-	fmt.Println(string(b))
 }
